@@ -27,6 +27,7 @@ pub fn eval_line(line: &str) -> String {
         "tlv" => guard(|| Some(op_tlv(&bytes_spec(rest)?))),
         "rb" => guard(|| Some(op_rb(&bytes_spec(rest)?))),
         "fmt1" => guard(|| Some(hex(parse_v1_addr(rest)?.to_string().as_bytes()))),
+        "rt1" => guard(|| op_rt1(rest)),
         "bld" => guard(|| op_bld(rest)),
         "wr" => guard(|| op_wr(rest)),
         "ctor" => guard(|| op_ctor(rest)),
@@ -205,6 +206,28 @@ fn op_v1s(rest: &str) -> String {
         })
     });
     format!("{} | {} | {}", a, b, c)
+}
+
+/// C08: format an address value, then parse the text back through every text entry point.
+fn op_rt1(rest: &str) -> Option<String> {
+    let a = parse_v1_addr(rest)?;
+    let text = a.to_string();
+    let show = |r: Result<v1::Addresses, String>| match r {
+        Ok(x) => v1_addr(&x),
+        Err(e) => format!("err:{}", e),
+    };
+    let b = show(v1::Header::try_from(text.as_bytes()).map(|h| h.addresses).map_err(|e| match e {
+        v1::BinaryParseError::Parse(p) => v1_err(&p),
+        v1::BinaryParseError::InvalidUtf8(_) => "InvalidUtf8".to_string(),
+    }));
+    let s = show(v1::Header::try_from(text.as_str()).map(|h| h.addresses).map_err(|e| v1_err(&e)));
+    let fh = show(text.parse::<v1::Header<'static>>().map(|h| h.addresses).map_err(|e| v1_err(&e)));
+    let fa = show(text.parse::<v1::Addresses>().map_err(|e| v1_err(&e)));
+    let hdr_same = match v1::Header::try_from(text.as_str()) {
+        Ok(h) => h.header == text && h.to_string() == text,
+        Err(_) => false,
+    };
+    Some(format!("text={} len={} b={} s={} fh={} fa={} same={}", hex(text.as_bytes()), text.len(), b, s, fh, fa, b01(hdr_same)))
 }
 
 // ---------------------------------------------------------------- v2
